@@ -2,9 +2,15 @@
 use serde_json::{json, Value};
 use std::collections::{BTreeMap, BTreeSet, HashSet};
 use std::hash::{Hash, Hasher};
-use std::path::{Path, PathBuf};
+use std::path::PathBuf;
 
 pub const VERIF: &str = "/verif";
+
+/// Where known_findings.json is read and evidence / replays are written. The registered checks
+/// always use /verif; the seed-matrix tool points scratch copies elsewhere.
+pub fn verif_dir() -> PathBuf {
+    std::env::var_os("FXV_VERIF_DIR").map_or_else(|| PathBuf::from(VERIF), PathBuf::from)
+}
 
 pub fn h64<T: Hash + ?Sized>(t: &T) -> u64 {
     let mut h = std::collections::hash_map::DefaultHasher::new();
@@ -165,7 +171,7 @@ pub struct Known {
 }
 
 pub fn load_known() -> Vec<Known> {
-    let p = Path::new(VERIF).join("known_findings.json");
+    let p = verif_dir().join("known_findings.json");
     let Ok(s) = std::fs::read_to_string(&p) else {
         return Vec::new();
     };
@@ -214,7 +220,7 @@ pub fn finish(meta: &Meta, tier: &str, seed: i64, wall_s: f64, out: &Out, bounds
         }
     }
     // counts of keys that were not stored as full cases are covered by their first cases
-    let replay_dir = PathBuf::from(VERIF).join("replays").join(meta.id);
+    let replay_dir = verif_dir().join("replays").join(meta.id);
     let mut seen_keys = BTreeSet::new();
     let mut n_viol = 0;
     for v in &unlisted {
@@ -262,7 +268,7 @@ pub fn finish(meta: &Meta, tier: &str, seed: i64, wall_s: f64, out: &Out, bounds
         "wall_s": (wall_s * 100.0).round() / 100.0,
         "violations": n_viol,
     });
-    let evdir = PathBuf::from(VERIF).join("evidence");
+    let evdir = verif_dir().join("evidence");
     std::fs::create_dir_all(&evdir).ok();
     std::fs::write(
         evdir.join(format!("{}.json", meta.id)),
